@@ -5,6 +5,22 @@ import json
 ALL = [f"C{i:02d}" for i in range(1, 20)]
 
 CHECKS = {
+    "C10": dict(
+        category="exploration", engine="E1+E5", design_ref="DESIGN.md 3/C10",
+        technique="bounded-exhaustive enumeration of injections (every slot x shape) x all 8 flag combinations against the property's decision table",
+        text=("For every G-model model without generic content (quick 0.7k, thorough 6k) and its default / one-deviation instance: unknown elements of 6 shapes at every child slot of every "
+              "class-bound element, 4 kinds of unknown attributes (incl. xsi:schemaLocation and arbitrary xsi:*) on every class-bound element, every typed leaf corrupted, each under all 8 "
+              "combinations of the three fail_on_* options and both handlers; the same for dictionary and JSON input. The outcome must be exactly what the decision table says: equal object, "
+              "ParserError, or value kept as given plus ConverterWarning."),
+        note="'unknown' is decided from the field list alone; attributes on simple-typed elements are not judged"),
+    "C15": dict(
+        category="fault_enumeration", engine="E1+E5", design_ref="DESIGN.md 3/C15",
+        technique="exhaustive single-fault enumeration (every byte offset, every element, every value) on valid documents, error-type and well-formedness oracles",
+        text=("Every single structural fault on every element / attribute / text of each model document (delete, duplicate, retag, re-namespace, undeclared prefix, swap, child in simple content, "
+              "5 bad xsi:type and 5 xsi:nil values, wrong / wrapped root), truncation at every byte offset, deletion of every byte and 6 substitutions at every offset of 44 (thorough 673) "
+              "documents, all byte strings of length <= 2 over 8 bytes, and 5 + 8-per-key JSON/dict faults through DictDecoder, JsonParser and truncated JSON text; both handlers. Each call must "
+              "return an instance of the requested class or raise a documented error within the watchdog, and the native handler must reject what expat and libxml2 both call not well-formed."),
+        note="bounded time is a 20 s watchdog; documented errors: ParserError, ConverterError, XmlContextError, XmlHandlerError, json.JSONDecodeError"),
     "C09": dict(
         category="exploration", engine="E1+E5", design_ref="DESIGN.md 3/C09",
         technique="bounded-exhaustive enumeration of meaning-preserving document rewrites at every application site, metamorphic oracle parse(rewrite(d)) == parse(d)",
